@@ -237,9 +237,17 @@ def check_scalar_ladder(ctx):
                         rets.append(norm(x.value))
         if sorted(rets) != sorted([at, "_not_made"]):
             ctx.bad("C15.3", f, st, f"a scalar arm returns {rets} (expected the scalar type itself, or the not-made marker)")
-    for t in ("bool", "int", "float", "complex"):
-        if t not in seen:
-            ctx.bad("C15.3", f, f.node, f"the Python scalar type `{t}` has no arm in the scalar ladder", construct=f"scalar ladder: no {t}")
+    # every use of _check_scalar must be one of the recognised arms; a table-driven / helper-based ladder
+    # (prefix not a literal at the call) is not something a missing arm can be read off from
+    arm_calls = {id(c) for st in arms for x in st.body for c in ast.walk(x) if isinstance(c, ast.Call) and norm(c.func) == "_check_scalar"}
+    other_calls = [c for fn_ in m.all_functions(include_typeguard=False) for c in m.calls_in(fn_)
+                   if norm(c.func) == "_check_scalar" and id(c) not in arm_calls]
+    missing = [t for t in ("bool", "int", "float", "complex") if t not in seen]
+    if missing and (n == 0 or other_calls):
+        raise AnalysisError(f"C15.3: the scalar ladder is not (only) a chain of `{at} is T` arms with literal prefixes "
+                            f"({len(other_calls)} other use(s) of _check_scalar); arms for {missing} not recognised")
+    for t in missing:
+        ctx.bad("C15.3", f, f.node, f"the Python scalar type `{t}` has no arm in the scalar ladder", construct=f"scalar ladder: no {t}")
     ctx.counters["scalar_arms"] = n
     ctx.floor("C15.3", "scalar_arms", 6)
     cs = m.func("_array_types._check_scalar")
